@@ -3,12 +3,12 @@ CONSTANTS
   Segmented = FALSE
   Families = {"api", "cl", "chunk", "bigchunk"}
   CodeMode = "all"
-  HdrK = 2
+  HdrK = 1
   MaxHdrs = 1
-  MaxBody = 3
+  MaxBody = 2
   BodyMode = "len"
   StyleMode = "one"
-  PhraseMode = "reg"
+  PhraseMode = "free"
   MaxBig = 17
 INIT MCInit
 NEXT Next
